@@ -40,6 +40,10 @@ pub struct ProcPart {
     /// sequence over the same files.
     #[serde(default)]
     pub in_place: bool,
+    /// Incarnation 2 saves again (--oc/--of to new paths) and a third incarnation evaluates that second
+    /// generation: r3 must still equal r1 up to the printed precision.
+    #[serde(default)]
+    pub second_generation: bool,
 }
 
 #[derive(Clone, Debug, Serialize, Deserialize)]
@@ -433,6 +437,9 @@ fn process_world(ctx: &Ctx, scn: &Scn, pp: &ProcPart, ex: &mut Exec, fp: &mut Fn
     argv1.extend(["--oc", oc, "--of", of, "--json", "r1.json"].iter().map(|s| s.to_string()));
     let mut argv2: Vec<String> = vec!["-c", oc, "-f", of, "--json", "r2.json"].iter().map(|s| s.to_string()).collect();
     argv2.extend(common.iter().cloned());
+    if pp.second_generation {
+        argv2.extend(["--oc", "oc2.csv", "--of", "of2.csv"].iter().map(|s| s.to_string()));
+    }
     for name in &pp.stale {
         image = image.with_file(name, Blob::Utf8("STALE-BYTES-OF-AN-EARLIER-RUN ".repeat(3000)));
     }
@@ -496,8 +503,24 @@ fn process_world(ctx: &Ctx, scn: &Scn, pp: &ProcPart, ex: &mut Exec, fp: &mut Fn
             format!("{}: exit {:?}: {} — saved components: {:?}", what2, o2.exit, truncate(o2.stderr_text().trim(), 300), truncate(&String::from_utf8_lossy(&disk.read(oc).unwrap_or_default()), 500)),
         ));
     }
+    let mut what2 = what2;
+    let mut final_json = "r2.json";
+    if pp.second_generation {
+        let mut argv3: Vec<String> = vec!["-c", "oc2.csv", "-f", "of2.csv", "--json", "r3.json"].iter().map(|s| s.to_string()).collect();
+        argv3.extend(common.iter().cloned());
+        let o3 = run(&Incarnation { argv: argv3.clone(), entropy: pp.crash_entropy ^ 0x33, plan: Vec::new(), debug_build: false }, ex, fp);
+        what2 = format!("cteepbd {} (third incarnation, reading what the second saved) after `{}`", argv3.join(" "), what2);
+        if let Some(v) = crate::props::c16::judge_outcome(&o3, &what2) {
+            return Some(v);
+        }
+        if o3.exit != Some(0) {
+            return Some(Violation::new("roundtrip_result", "third-run-fails", format!("{}: exit {:?}: {}", what2, o3.exit, truncate(o3.stderr_text().trim(), 300))));
+        }
+        final_json = "r3.json";
+        ex.count("second_generation_roundtrips", 1);
+    }
     let r1: Option<Value> = disk.read("r1.json").and_then(|b| serde_json::from_slice(&b).ok());
-    let r2: Option<Value> = disk.read("r2.json").and_then(|b| serde_json::from_slice(&b).ok());
+    let r2: Option<Value> = disk.read(final_json).and_then(|b| serde_json::from_slice(&b).ok());
     let (r1, r2) = match (r1, r2) {
         (Some(a), Some(b)) => (a, b),
         _ => return Some(Violation::new("roundtrip_result", "json-missing", format!("{}: result documents missing or invalid", what2))),
@@ -515,7 +538,7 @@ fn process_world(ctx: &Ctx, scn: &Scn, pp: &ProcPart, ex: &mut Exec, fp: &mut Fn
     }
     let area: f64 = r1.get("arearef").and_then(|v| v.as_f64()).unwrap_or(1.0);
     let sc = Scale::of(&scn.b, area);
-    let slack = 0.005 * imprecise;
+    let slack = 0.005 * imprecise * if pp.second_generation { 2.0 } else { 1.0 };
     if let Some(m) = json_mismatch_with_slack(&r1, &r2, &sc, slack) {
         return Some(Violation::new(
             "roundtrip_result",
@@ -748,6 +771,7 @@ impl Property for C18 {
                 pass_area: o.chance(0.7),
                 pass_kexp: o.chance(0.7),
                 in_place: o.chance(0.15),
+                second_generation: o.chance(0.2),
             })
         } else {
             None
@@ -856,6 +880,11 @@ impl Property for C18 {
             if pp.in_place {
                 let mut n = scn.clone();
                 n.proc_part.as_mut().unwrap().in_place = false;
+                out.push(n);
+            }
+            if pp.second_generation {
+                let mut n = scn.clone();
+                n.proc_part.as_mut().unwrap().second_generation = false;
                 out.push(n);
             }
             for (a, k) in [(false, pp.pass_kexp), (pp.pass_area, false)] {
